@@ -6,15 +6,34 @@
     #define try { jmp_buf __env; exception_try(&__env); if (!setjmp(__env))
     #define catch_in(X, ...) else { exception_try_fail(); } exception_try_end(); }
         for (var X = exception_catch(tuple(__VA_ARGS__)); X isnt NULL; X = NULL)
+    #define throw(E, F, ...) exception_throw(E, F, tuple(__VA_ARGS__))
     exception_try / exception_try_fail / exception_try_end / exception_throw / exception_catch
+    and, for the filter walk of exception_catch (`foreach(arg in args)` over a Tuple), Tuple_Iter_Init / Tuple_Iter_Next.
+
+  Objects are addresses (`Nat`); address 0 is NULL.  The exception objects of the harness (kind k of harness/h_exn.c)
+  are the addresses k+1; `eq` on them is identity (they are Type objects with distinct names).
 -/
 namespace Cello.Exn
 
-/-- try/throw/catch program trees. `call p` is `p` executed in a callee frame (dynamic nesting); the machinery
-    does not distinguish it from inline code, which is the point. -/
+/-- NULL -/
+def nullObj : Nat := 0
+/-- `ValueError` (harness kind 1): what `eq(arg, NULL)` raises (`cast` → `type_of(NULL)`) -/
+def valueErr : Nat := 2
+/-- `FormatError` (harness kind 4): what `print_to_with` raises on a message format with too few arguments -/
+def fmtErr : Nat := 5
+
+/-- try/throw/catch program trees.
+    * `throw e` is `throw(e, "…", enough arguments)`; `throw 0` is `throw(NULL, …)`.
+    * `throwBad e` is `throw(e, "%i")` — a message format with fewer arguments than specifications.
+    * `rethrow` is `throw(x, …)` where `x` is the variable bound by the innermost enclosing handler (at top level:
+      the argument `x` the program is run with — a function parameter holding an exception object).
+    * `call p` is `p` executed in a callee frame (dynamic nesting); the bound variable is passed along as an argument.
+      The machinery does not distinguish it from inline code, which is the point. -/
 inductive Prog where
   | stmt (tag : Nat)
   | throw (e : Nat)
+  | throwBad (e : Nat)
+  | rethrow
   | seq (p q : Prog)
   | tryCatch (body : Prog) (filter : List Nat) (handler : Prog)
   | call (p : Prog)
@@ -26,25 +45,29 @@ inductive Ev where
   | handler (e : Nat)
 deriving Repr, DecidableEq, Inhabited
 
-/-- `exception_catch`: an empty filter matches everything, otherwise `eq` against each argument -/
+/-- the filter of the specification: an empty filter matches everything, otherwise membership -/
 def fmatch (f : List Nat) (e : Nat) : Bool := f.isEmpty || f.contains e
 
-/-- Reference (specification): structured exceptions, big-step. Returns the trace and the exception that
-    leaves the program, if any. -/
-def eval : Prog → List Ev × Option Nat
-  | .stmt t => ([.stmt t], none)
-  | .throw e => ([], some e)
-  | .seq p q =>
-    match eval p with
+/-- Reference (specification): structured exceptions, big-step. `x` is the object bound by the innermost enclosing
+    handler. Returns the trace and the exception that leaves the program, if any. The object raised by a `throw` is
+    the object named in it — also for `throw 0` and `throwBad e`: that is the property's reading; the machine departs
+    from it there (`C07_throw_null_refuted`, `C07_bad_message_refuted`). -/
+def eval : Prog → Nat → List Ev × Option Nat
+  | .stmt t, _ => ([.stmt t], none)
+  | .throw e, _ => ([], some e)
+  | .throwBad e, _ => ([], some e)
+  | .rethrow, x => ([], some x)
+  | .seq p q, x =>
+    match eval p x with
     | (t1, some e) => (t1, some e)
-    | (t1, none) => let (t2, r) := eval q; (t1 ++ t2, r)
-  | .call p => eval p
-  | .tryCatch b f h =>
-    match eval b with
+    | (t1, none) => let (t2, r) := eval q x; (t1 ++ t2, r)
+  | .call p, x => eval p x
+  | .tryCatch b f h, x =>
+    match eval b x with
     | (t, none) => (t, none)
     | (t, some e) =>
       if fmatch f e then
-        let (th, r) := eval h
+        let (th, r) := eval h e
         (t ++ [.handler e] ++ th, r)
       else (t, some e)
 
@@ -52,12 +75,41 @@ def eval : Prog → List Ev × Option Nat
 def nest : Prog → Nat
   | .stmt _ => 0
   | .throw _ => 0
+  | .throwBad _ => 0
+  | .rethrow => 0
   | .seq p q => max (nest p) (nest q)
   | .call p => nest p
   | .tryCatch b _ h => max (nest b + 1) (nest h)
 
-/-- `struct Exception` without the message: `depth`, `active`, `obj`. The jump buffers themselves are
-    represented by their indices: the buffer pushed by a `try` entered at depth `d` has index `d`. -/
+/-- **Object domain** of the property: every `throw` names a non-NULL object and has a well-formed message, and no
+    filter lists NULL. (That thrown objects outlive the jump and that `eq` on them cannot raise is built into the
+    representation: objects are plain addresses compared by identity.) -/
+def inDomain : Prog → Bool
+  | .stmt _ => true
+  | .throw e => e != 0
+  | .throwBad _ => false
+  | .rethrow => true
+  | .seq p q => inDomain p && inDomain q
+  | .call p => inDomain p
+  | .tryCatch b f h => inDomain b && !f.contains 0 && inDomain h
+
+/-- every catch filter lists pairwise distinct objects -/
+def nodupFilters : Prog → Bool
+  | .seq p q => nodupFilters p && nodupFilters q
+  | .call p => nodupFilters p
+  | .tryCatch b f h => nodupFilters b && decide f.Nodup && nodupFilters h
+  | _ => true
+
+/-- `throwBad e` behaves as `throw FormatError` (`C07_bad_message_as_format_error`) -/
+def normalizeMsg : Prog → Prog
+  | .throwBad _ => .throw fmtErr
+  | .seq p q => .seq (normalizeMsg p) (normalizeMsg q)
+  | .call p => .call (normalizeMsg p)
+  | .tryCatch b f h => .tryCatch (normalizeMsg b) f (normalizeMsg h)
+  | p => p
+
+/-- `struct Exception` without the message: `depth`, `active`, `obj` (0 = NULL, its initial value). The jump buffers
+    themselves are represented by their indices: the buffer pushed by a `try` entered at depth `d` has index `d`. -/
 structure St where
   depth : Nat
   active : Bool
@@ -71,43 +123,89 @@ inductive Sig where
   | fatal                -- uncaught: Exception_Error → diagnostic, exit(EXIT_FAILURE)
   | abort                -- "Exception Buffer Overflow/Underflow" → abort()
   | ub                   -- longjmp to a buffer whose block has been left: undefined behaviour
+  | hang                 -- the filter walk of exception_catch never terminates
 deriving Repr, DecidableEq, Inhabited
+
+/-! ### the filter walk: `foreach(arg in args) { if (eq(arg, e->obj)) … }` over `tuple(__VA_ARGS__)` -/
+
+/-- `Tuple_Iter_Next(self, curr)`: scan from the start for the first item that *is* `curr` (pointer identity) and
+    return the item after it; `none` is `Terminal`. -/
+def tupleNext : List Nat → Nat → Option Nat
+  | [], _ => none
+  | x :: xs, c => if x = c then xs.head? else tupleNext xs c
+
+inductive Walk where
+  | matched   -- `eq(arg, e->obj)` held for some visited `arg`
+  | exhausted   -- the walk reached Terminal
+  | hang      -- out of fuel: the walk cycles (see `CelloProofs.Lemmas.ExnWalk`: then it does so for every fuel)
+  | nullCmp   -- `eq(arg, NULL)`: `Type_Cmp` casts its argument, `type_of(NULL)` raises ValueError
+deriving Repr, DecidableEq, Inhabited
+
+/-- the loop `for (arg = iter_init(args); arg isnt Terminal; arg = iter_next(args, arg))`, `cur` = `arg` -/
+def walkFrom (f : List Nat) (obj : Nat) : Nat → Option Nat → Walk
+  | 0, _ => .hang
+  | _+1, none => .exhausted
+  | n+1, some a =>
+    if obj = 0 then .nullCmp
+    else if a = obj then .matched
+    else walkFrom f obj n (tupleNext f a)
+
+/-- `exception_catch` after the `active` test: `len(args) is 0` → catch all; otherwise the walk (`Tuple_Iter_Init` =
+    first item). Fuel `length + 1` is exactly what a duplicate-free tuple needs. -/
+def catchDecision (f : List Nat) (obj : Nat) : Walk :=
+  if f.isEmpty then .matched else walkFrom f obj (f.length + 1) f.head?
 
 /-- `exception_try_end(); exception_catch(filter)` and the handler, given the state after the body/else-branch.
     `consume` = whether `exception_catch` clears `active` when it returns the object (read from the source by
-    the translator: CelloGen.Exn.catchConsumes). -/
-def catchPhase (consume : Bool) (runH : St → St × List Ev × Sig) (f : List Nat)
+    the translator: CelloGen.Exn.catchConsumes). `runH x` runs the handler with `x` bound. -/
+def catchPhase (consume : Bool) (runH : Nat → St → St × List Ev × Sig) (f : List Nat)
     (s3 : St) (t : List Ev) : St × List Ev × Sig :=
   -- exception_try_end
   if s3.depth = 0 then (s3, t, .abort) else
   let s4 : St := { s3 with depth := s3.depth - 1 }
   -- exception_catch
   if !s4.active then (s4, t, .normal)
-  else if fmatch f s4.obj then
-    let s5 : St := if consume then { s4 with active := false } else s4
-    let (s6, th, g) := runH s5
-    (s6, t ++ [.handler s4.obj] ++ th, g)
-  else if s4.depth ≥ 1 then (s4, t, .jump (s4.depth - 1)) else (s4, t, .fatal)
+  else match catchDecision f s4.obj with
+    | .matched =>
+      let s5 : St := if consume then { s4 with active := false } else s4
+      -- `for (var X = exception_catch(…); X isnt NULL; X = NULL)`: a NULL object is returned, the handler is skipped
+      if s4.obj = 0 then (s5, t, .normal)
+      else
+        let (s6, th, g) := runH s4.obj s5
+        (s6, t ++ [.handler s4.obj] ++ th, g)
+    | .exhausted => if s4.depth ≥ 1 then (s4, t, .jump (s4.depth - 1)) else (s4, t, .fatal)
+    | .hang => (s4, t, .hang)
+    | .nullCmp =>
+      -- exception_throw(ValueError, …) from inside exception_catch, at the outer depth
+      let s5 : St := { s4 with obj := valueErr }
+      if s5.depth ≥ 1 then (s5, t, .jump (s5.depth - 1)) else (s5, t, .fatal)
 
-/-- The machine: what the macros and Exception.c do. -/
-def run (consume : Bool) (maxDepth : Nat) : Prog → St → St × List Ev × Sig
-  | .stmt t, s => (s, [.stmt t], .normal)
-  | .throw e, s =>
-    -- exception_throw: e->obj = obj; longjmp to the innermost buffer or Exception_Error
-    let s := { s with obj := e }
-    if s.depth ≥ 1 then (s, [], .jump (s.depth - 1)) else (s, [], .fatal)
-  | .seq p q, s =>
-    match run consume maxDepth p s with
+/-- `exception_throw`: `e->obj = obj; print_to_with(e->msg, …)`; longjmp to the innermost buffer or Exception_Error -/
+def throwObj (e : Nat) (s : St) : St × List Ev × Sig :=
+  let s := { s with obj := e }
+  if s.depth ≥ 1 then (s, [], .jump (s.depth - 1)) else (s, [], .fatal)
+
+/-- The machine: what the macros and Exception.c do. `x` = the C variable bound by the innermost enclosing handler. -/
+def run (consume : Bool) (maxDepth : Nat) : Prog → Nat → St → St × List Ev × Sig
+  | .stmt t, _, s => (s, [.stmt t], .normal)
+  | .throw e, _, s => throwObj e s
+  | .throwBad e, _, s =>
+    -- `e->obj = obj;` then print_to_with finds too few arguments and itself throws FormatError (a nested
+    -- exception_throw: `e->obj = FormatError`, message formatted, jump)
+    throwObj fmtErr { s with obj := e }
+  | .rethrow, x, s => throwObj x s
+  | .seq p q, x, s =>
+    match run consume maxDepth p x s with
     | (s1, t1, .normal) =>
-      let (s2, t2, g) := run consume maxDepth q s1
+      let (s2, t2, g) := run consume maxDepth q x s1
       (s2, t1 ++ t2, g)
     | r => r
-  | .call p, s => run consume maxDepth p s
-  | .tryCatch b f h, s =>
+  | .call p, x, s => run consume maxDepth p x s
+  | .tryCatch b f h, x, s =>
     -- exception_try: overflow check, depth++, active = false, buffers[depth-1] = env  (index = s.depth)
     if s.depth = maxDepth then (s, [], .abort) else
     let s1 : St := { s with depth := s.depth + 1, active := false }
-    match run consume maxDepth b s1 with
+    match run consume maxDepth b x s1 with
     | (s2, t, .normal) => catchPhase consume (run consume maxDepth h) f s2 t
     | (s2, t, .jump tgt) =>
       if tgt = s.depth then
@@ -119,9 +217,26 @@ def run (consume : Bool) (maxDepth : Nat) : Prog → St → St × List Ev × Sig
 
 def St.init : St := ⟨0, false, 0⟩
 
+/-- statements executed one after another (a history of constructs), as `seq` does it -/
+def runSeq (consume : Bool) (maxDepth : Nat) : List Prog → Nat → St → St × List Ev × Sig
+  | [], _, s => (s, [], .normal)
+  | p :: ps, x, s =>
+    match run consume maxDepth p x s with
+    | (s1, t1, .normal) =>
+      let (s2, t2, g) := runSeq consume maxDepth ps x s1
+      (s2, t1 ++ t2, g)
+    | r => r
+
+/-- `n` try blocks around `p` (catch-all handlers that do nothing observable) -/
+def tower : Nat → Prog → Prog
+  | 0, p => p
+  | n+1, p => .tryCatch (tower n p) [] (.stmt 0)
+
 /-! ### text protocol (shared with harness/h_exn.c)
 
-  program ::= (s N) | (t N) | (q P P) | (c P (N*) P) | (f P)
+  program ::= (s N) | (t K) | (n) | (m K) | (r) | (q P P) | (c P (K*) P) | (f P) | (d N P)
+  kinds K are mapped to objects K+1; `(n)` = throw NULL; `(m K)` = throw kind K with a malformed message;
+  `(r)` = rethrow the bound object; `(d N P)` = P called through N frames.
 -/
 
 inductive Tok | lp | rp | num (n : Nat) | sym (c : Char)
@@ -140,11 +255,22 @@ def tokenize (s : String) : List Tok :=
       else go rest (.sym c :: flush acc) none
   go s.toList [] none
 
+/-- number of exception kinds of the harness; kind `k` is the object `k % nKinds + 1` -/
+def nKinds : Nat := 6
+def kindObj (k : Nat) : Nat := k % nKinds + 1
+
+def callN : Nat → Prog → Prog
+  | 0, p => p
+  | n+1, p => .call (callN n p)
+
 /-- parse one program; fuel = token count -/
 def parseProg : Nat → List Tok → Option (Prog × List Tok)
   | 0, _ => none
-  | fuel+1, .lp :: .sym 's' :: .num n :: .rp :: r => some (.stmt n, r)
-  | fuel+1, .lp :: .sym 't' :: .num n :: .rp :: r => some (.throw n, r)
+  | _+1, .lp :: .sym 's' :: .num n :: .rp :: r => some (.stmt n, r)
+  | _+1, .lp :: .sym 't' :: .num n :: .rp :: r => some (.throw (kindObj n), r)
+  | _+1, .lp :: .sym 'm' :: .num n :: .rp :: r => some (.throwBad (kindObj n), r)
+  | _+1, .lp :: .sym 'n' :: .rp :: r => some (.throw 0, r)
+  | _+1, .lp :: .sym 'r' :: .rp :: r => some (.rethrow, r)
   | fuel+1, .lp :: .sym 'q' :: r =>
     match parseProg fuel r with
     | some (p, r1) => match parseProg fuel r1 with
@@ -155,6 +281,10 @@ def parseProg : Nat → List Tok → Option (Prog × List Tok)
     match parseProg fuel r with
     | some (p, .rp :: r1) => some (.call p, r1)
     | _ => none
+  | fuel+1, .lp :: .sym 'd' :: .num n :: r =>
+    match parseProg fuel r with
+    | some (p, .rp :: r1) => if n ≤ 4096 then some (callN n p, r1) else none
+    | _ => none
   | fuel+1, .lp :: .sym 'c' :: r =>
     match parseProg fuel r with
     | some (b, .lp :: r1) =>
@@ -163,7 +293,10 @@ def parseProg : Nat → List Tok → Option (Prog × List Tok)
       match r2 with
       | .rp :: r3 => match parseProg fuel r3 with
         | some (h, .rp :: r4) =>
-          some (.tryCatch b (nums.filterMap (fun t => match t with | .num n => some n | _ => none)) h, r4)
+          -- the harness has one `catch` arm per filter arity 0…4
+          if nums.length ≤ 4 then
+            some (.tryCatch b (nums.filterMap (fun t => match t with | .num n => some (kindObj n) | _ => none)) h, r4)
+          else none
         | _ => none
       | _ => none
     | _ => none
@@ -177,7 +310,7 @@ def parse (s : String) : Option Prog :=
 
 def Ev.show : Ev → String
   | .stmt t => s!"s{t}"
-  | .handler e => s!"h{e}"
+  | .handler e => if e = 0 then "hNULL" else s!"h{e - 1}"
 
 def showTrace (t : List Ev) : String := ",".intercalate (t.map Ev.show)
 
@@ -187,5 +320,6 @@ def Sig.show : Sig → String
   | .fatal => "fatal"
   | .abort => "abort"
   | .ub => "ub"
+  | .hang => "hang"
 
 end Cello.Exn
